@@ -153,11 +153,16 @@ fn write_parallel(schema: &SchemaRef, batch: &RecordBatch, parts: &[usize], prop
             let turn = turn.clone();
             let my = rank[wi];
             let handle = std::thread::spawn(move || -> std::result::Result<ArrowColumnChunk, i64> {
+                // takes this worker's place in the closing order even if the writer panics, so that nobody waits forever
+                struct Turn { turn: Arc<AtomicUsize>, my: usize, waited: bool }
+                impl Turn { fn wait(&mut self) { while self.turn.load(Ordering::Acquire) != self.my { std::thread::yield_now(); } self.waited = true; } }
+                impl Drop for Turn { fn drop(&mut self) { if !self.waited { self.wait(); } self.turn.fetch_add(1, Ordering::AcqRel); } }
+                let mut t = Turn { turn, my, waited: false };
                 let mut res: std::result::Result<(), i64> = Ok(());
                 for col in recv { if res.is_ok() { res = cw.write(&col).map_err(|_| E_IO); } }
-                while turn.load(Ordering::Acquire) != my { std::thread::yield_now(); }
+                t.wait();
                 let c = cw.close().map_err(|_| E_IO);
-                turn.fetch_add(1, Ordering::AcqRel);
+                drop(t);
                 res?;
                 c
             });
